@@ -101,11 +101,25 @@ def check(ctx: Ctx) -> str:
 
     by_name = [l for l in ast.walk(mc.node) if isinstance(l, ast.For) and isinstance(l.iter, ast.Subscript) and ast.unparse(l.iter.value) == "self.arguments" and isinstance(l.iter.slice, ast.Slice) and l.iter.slice.lower is not None and l.iter.slice.upper is None and _res(l.iter.slice.lower) == "len(arguments)" and isinstance(l.target, ast.Name)]
     pv = by_name[0].target.id if len(by_name) == 1 else "name"  # type: ignore[attr-defined]
+    # inside that loop the keyword of the same name is consumed, `missing` when absent: either
+    # `try: V = kwargs.pop(p) except KeyError: V = missing` or `V = kwargs.pop(p, missing)`,
+    # and V is what is appended
+    ok_pop = ok_miss = False
+    if len(by_name) == 1:
+        for a_ in ast.walk(by_name[0]):
+            if isinstance(a_, ast.Assign) and len(a_.targets) == 1 and isinstance(a_.targets[0], ast.Name) and isinstance(a_.value, ast.Call) and astq.callee(a_.value) == "kwargs.pop" and a_.value.args and ast.unparse(a_.value.args[0]) == pv:
+                vn_ = a_.targets[0].id
+                ok_pop = f"arguments.append({vn_})" in ast.unparse(by_name[0])
+                if len(a_.value.args) == 2:
+                    ok_miss = ast.unparse(a_.value.args[1]) == "missing"
+                else:
+                    tr_ = getattr(a_, "_parent", None)
+                    ok_miss = isinstance(tr_, ast.Try) and a_ in tr_.body and any(h.type is not None and ast.unparse(h.type) == "KeyError" and [ast.unparse(x) for x in h.body] == [f"{vn_} = missing"] for h in tr_.handlers)
+    ctx.check(ok_pop, "call:keyword consumed", "runtime:Macro.__call__", "keyword consumed", "Macro.__call__ lost the step `value = kwargs.pop(<parameter>)` / `arguments.append(value)` in the by-name loop", mc.loc())
+    ctx.check(ok_miss, "call:unfilled -> missing", "runtime:Macro.__call__", "unfilled -> missing", "a parameter without positional or keyword value must be passed as `missing` (so that its default applies)", mc.loc())
     ctx.check(len(by_name) == 1, "call:remaining parameters by name", "runtime:Macro.__call__", "remaining parameters by name", "Macro.__call__ lost the step `for <param> in self.arguments[len(arguments):]`", mc.loc())
     for frag, what in (
         ("arguments = list(args[:self._argument_count])", "positional slice"),
-        (f"value = kwargs.pop({pv})", "keyword consumed"),
-        ("value = missing", "unfilled -> missing"),
         ("arguments.append(args[self._argument_count:])", "surplus positional -> varargs"),
         ("return self._invoke(arguments, autoescape)", "invoke"),
     ):
